@@ -513,6 +513,10 @@ fn report_findings(rep: &mut Report, findings: Vec<Finding>, scope: Scope, witne
             any = true;
         } else {
             rep.count("findings_outside_this_property_(reported_by_its_own_check)");
+            rep.bucket(&format!("outside:{}", fd.sig));
+            if std::env::var_os("CLV_SHOW_OUTSIDE").is_some() {
+                eprintln!("OUTSIDE {} | {} | {}", fd.sig, fd.detail, witness);
+            }
         }
     }
     any
@@ -916,6 +920,30 @@ pub fn run_c10(ctx: &mut Ctx) {
             }
         }
     }
+    // bodies that land exactly on the edge between "fits unfragmented" and "must be fragmented":
+    // overhead + body in M-14 ..= M+2, no client preference (an unfragmented reply must fit too)
+    for tkl in [0usize, 2, 8] {
+        for reply_opts in [vec![], vec![(12u16, vec![50u8])], vec![(4u16, vec![1u8; 8]), (14, vec![60]), (65000, vec![1, 2, 3])]] {
+            let overhead = reply_overhead(tkl, &reply_opts);
+            let mut budgets: Vec<usize> = vec![overhead + 28, overhead + 29, overhead + 44, 64, 100, 127, 128, 129, 255, 256, 300, 511, 512, 1000, 1023, 1024, 1151, 1152, 1153, 1279, 1280];
+            budgets.retain(|m| *m >= overhead + 28 && *m <= 1280);
+            for m in budgets {
+                for d in -14i64..=2 {
+                    idx += 1;
+                    if idx % nshards != shard || (level == 0 && idx % 7 != 0) {
+                        continue;
+                    }
+                    let len = m as i64 - overhead as i64 + d;
+                    if len < 0 {
+                        continue;
+                    }
+                    let cfg = DlCfg { ep: 1, path: vec!["edge".into()], body: body_bytes(idx, len as usize), reply_opts: reply_opts.clone(), tkl, strategy: Strategy::Follow, typ: (idx % 2) as u8, abandon_after: None };
+                    dl_one(rep, m, &cfg, &mut ids, Scope::Budget);
+                    rep.count("edge_of_fragmentation_cases");
+                }
+            }
+        }
+    }
     // random configurations: downloads
     for _ in 0..budget {
         let reply_opts = gen_reply_opts(&mut r);
@@ -934,6 +962,15 @@ pub fn run_c10(ctx: &mut Ctx) {
         };
         let len = if level == 0 { r.usize_below(400) } else { r.usize_below(4000) };
         let plen = r.usize_below(200);
+        // the request (long path, Block2 option, token) has to fit the budget as well
+        let mut probe = ReqSpec::new(1, &[]);
+        probe.path = vec![vec![b'x'; plen]];
+        probe.token = vec![0; tkl];
+        probe.block2 = Some((300, false, 6));
+        let m = m.max(probe.overhead() + 28);
+        if m > 1280 {
+            continue;
+        }
         let cfg = DlCfg { ep: 2, path: vec![String::from_utf8(vec![b'x'; plen]).unwrap()], body: body_bytes(r.next_u64(), len), reply_opts, tkl, strategy, typ: r.below(2) as u8, abandon_after: None };
         dl_one(rep, m, &cfg, &mut ids, Scope::Budget);
     }
@@ -983,6 +1020,7 @@ pub fn run_c10(ctx: &mut Ctx) {
         }
         rep.distinct(mix(&[0xB1, szx as u64, fits as u64, (m - overhead).min(1100) as u64 / 8]));
     }
+    rep.floor("edge_of_fragmentation_cases", 10);
     rep.floor("transfers_fragmented", 10);
     rep.floor("transfers_unfragmented", 5);
     rep.floor("upload_client_size_fits", 5);
